@@ -197,7 +197,7 @@ def inst_rate_floor(cx, iid):
         # exact forms (RFC 5348 4.3 step 5, 4.4 step 1, 6.3.1): the receive-rate limit caps (min), the floor lifts (max)
         OKF = [
             (mx(mn(r"var\d+", r"var\d+"), MR), "first loss: max(min(X_target, recv_limit), s/64)"),
-            (mx(mn(r"mul\(2,arg1\.send_rate\)", r"var\d+"), INIT), "slow start: max(min(2X, recv_limit), W_init/R)"),
+            (mx(mn(r"(?:mul\(2,arg1\.send_rate\)|u32::saturating_mul\(arg1\.send_rate,2\))", r"var\d+"), INIT), "slow start: max(min(2X, recv_limit), W_init/R)"),
             (INIT, "first feedback: W_init/R"),
             (mx(mn(TCP, r"var\d+"), MR), "equation phase: max(min(X_Bps, recv_limit), s/64)"),
             (mx(r"div\(arg1\.send_rate,2\)", MR), "no feedback: max(X/2, s/64)"),
@@ -260,7 +260,7 @@ def inst_update_guards(cx, iid):
         fa = cx.fa(b, kill_fields=False)
         want = [
             (r"Ord::max\(Ord::min\(var\d+,var\d+\),.*MINIMUM_RATE\)", "first loss", [SS, LI]),
-            (r"Ord::max\(Ord::min\(mul\(2,arg1\.send_rate\),var\d+\),send_rate::compute_initial_send_rate\(.*\)\)", "doubling", [SS, NLI, r"is\(%s,Some\)" % TLD, r"le\(SendRateComp::update_rtt\(.*\)\.1,sub\(arg2,%s@Some\.0\)\)" % TLD]),
+            (r"Ord::max\(Ord::min\((?:mul\(2,arg1\.send_rate\)|u32::saturating_mul\(arg1\.send_rate,2\)),var\d+\),send_rate::compute_initial_send_rate\(.*\)\)", "doubling", [SS, NLI, r"is\(%s,Some\)" % TLD, r"le\(SendRateComp::update_rtt\(.*\)\.1,sub\(arg2,%s@Some\.0\)\)" % TLD]),
             (r"send_rate::compute_initial_send_rate\(.*\)", "first feedback", [SS, NLI, r"is\(%s,None\)" % TLD]),
             (r"Ord::max\(Ord::min\(arg1\.mode@ThroughputEqn\.0\.send_rate_tcp,var\d+\),.*MINIMUM_RATE\)", "equation", [TE]),
         ]
@@ -406,9 +406,9 @@ def run(cx):
         # slow-start step
         hf = R.body("SendRateComp::handle_feedback")
         steps = [show(hf.rvalue_expr(n["rv"])) for l, n, ps in hf.field_writes(r"arg1\.send_rate") if n["k"] == "assign"]
-        ss = [s for s in steps if "mul(2,arg1.send_rate)" in s]
+        ss = [s for s in steps if "mul(2,arg1.send_rate)" in s or "u32::saturating_mul(arg1.send_rate,2)" in s]
         inst.site(hf, None, "slow-start step: " + " | ".join(ss)[:160])
-        if len(ss) != 1 or not re.fullmatch(r"Ord::max\(Ord::min\(mul\(2,arg1\.send_rate\),var\d+\),send_rate::compute_initial_send_rate\(.*\)\)", ss[0]):
+        if len(ss) != 1 or not re.fullmatch(r"Ord::max\(Ord::min\((?:mul\(2,arg1\.send_rate\)|u32::saturating_mul\(arg1\.send_rate,2\)),var\d+\),send_rate::compute_initial_send_rate\(.*\)\)", ss[0]):
             inst.violation(hf.path, "slow-start step", "slow-start update is %s; expected max(min(2*X, recv_limit), W_init/R)" % ss)
 
     with cx.instance("C14.b", "T9 CONST", "s = MAX_FRAME_SIZE; floor = s/64; W_init = min(max(2s,4380),4s); initial no-feedback timer 2 s", floor=4) as inst:
@@ -496,8 +496,8 @@ def run(cx):
         if got != "div(cast<f64>(arg1),1000.0)":
             inst.violation(ms.path, "ms_to_s", "ms_to_s is `%s`, expected v as f64 / 1000" % got)
         # re-arming (RFC 5348 4.3 step 6, 4.4 step 3)
-        for fn, rx in (("SendRateComp::handle_feedback", r"Some\{add\((arg2,send_rate::s_to_ms\(SendRateComp::update_rto\(.*\)\)|send_rate::s_to_ms\(SendRateComp::update_rto\(.*\)\),arg2)\)\}"),
-                       ("SendRateComp::nofeedback_expired", r"Some\{add\((arg2,send_rate::s_to_ms\(SendRateComp::update_rto\(.*\)\)|send_rate::s_to_ms\(SendRateComp::update_rto\(.*\)\),arg2)\)\}")):
+        for fn, rx in (("SendRateComp::handle_feedback", r"Some\{(?:add|u64::saturating_add)\((arg2,send_rate::s_to_ms\(SendRateComp::update_rto\(.*\)\)|send_rate::s_to_ms\(SendRateComp::update_rto\(.*\)\),arg2)\)\}"),
+                       ("SendRateComp::nofeedback_expired", r"Some\{(?:add|u64::saturating_add)\((arg2,send_rate::s_to_ms\(SendRateComp::update_rto\(.*\)\)|send_rate::s_to_ms\(SendRateComp::update_rto\(.*\)\),arg2)\)\}")):
             b = R.body(fn)
             ws = [(l, show(b.rvalue_expr(n["rv"]))) for l, n, ps in b.field_writes(r"arg1\.nofeedback_exp_ms") if n["k"] == "assign"]
             for l, v in ws:
@@ -533,6 +533,15 @@ def run(cx):
 
 
 SELFTEST = [
+    {"name": "slow start continues after a loss report",
+     "edits": [{"file": "src/half_connection/send_rate.rs", "old": "                if loss_increase {\n                    // Nonzero loss", "new": "                if !loss_increase {\n                    // Nonzero loss"}],
+     "expect": ["C14.m"]},
+    {"name": "receive-rate limit 3 * X_recv",
+     "edits": [{"file": "src/half_connection/send_rate.rs", "old": "                let max_val = self.recv_rate_set.data_limited_update(now_ms, recv_rate);\n                max_val.saturating_mul(2)", "new": "                let max_val = self.recv_rate_set.data_limited_update(now_ms, recv_rate);\n                max_val.saturating_mul(3)"}],
+     "expect": ["C14.m"]},
+    {"name": "RTT sample measured as now + send time",
+     "edits": [{"file": "src/half_connection/frame_queue.rs", "old": "let rtt_ms = now_ms - ack_data.last_send_time_ms;", "new": "let rtt_ms = now_ms.wrapping_add(ack_data.last_send_time_ms);"}],
+     "expect": ["C14.n"]},
     {"name": "change the 12*sqrt(3p/8) coefficient",
      "edits": [{"file": "src/half_connection/send_rate.rs", "old": "12.0*(p*3.0/8.0).sqrt()", "new": "11.0*(p*3.0/8.0).sqrt()"}],
      "expect": ["C14.a"]},
